@@ -72,10 +72,10 @@ for _v in ("mp", "re"):
         @tmpl(f"op.{v}.h1", f"{v}", "", fp=False)
         def _(w): return w.op(v).h1
 
-        for n, m in ((1, 1), (2, 2), (1, 0), (2, 1)):
+        for n, m in ((1, 1), (2, 2), (1, 0), (2, 1), (1, 2), (0, 1)):
             def _mk2(n, m):
                 @tmpl(f"op.{v}.operator({n},{m})", f"{v}", "", fp=False)
-                def _(w): return w.op(v).operator(n, m)
+                def _(w): return w.call(w.op(v), "operator", n, m)
             _mk2(n, m)
     _mk(_v)
 
@@ -87,13 +87,13 @@ def _gs_templates(v, s):
     for o in (0, 1, 2):
         def _mk(o):
             @tmpl(f"{tag}.energy({o})", c, "")
-            def _(w): return w.gs(v, s).energy(o)
+            def _(w): return w.call(w.gs(v, s), "energy", o)
         _mk(o)
     for o in (1, 2):
         for bk in ("bra", "ket"):
             def _mk(o, bk):
                 @tmpl(f"{tag}.psi({o},{bk})", c, "", fresh="psi", fp=False)
-                def _(w): return w.gs(v, s).psi(o, bk)
+                def _(w): return w.call(w.gs(v, s), "psi", o, bk)
             _mk(o, bk)
     amps = [(1, "pphh", "ijab", "q"), (1, "pphh", "klcd", "q"), (2, "ph", "ia", "q"),
             (2, "ph", "jb", "q"), (1, "pphh", "i1j1a2b2", "q"), (2, "pphh", "ijab", "t"),
@@ -102,20 +102,24 @@ def _gs_templates(v, s):
         def _mk(o, sp, idx, tier):
             @tmpl(f"{tag}.amplitude({o},{sp},{idx})", c, idx, tier=tier,
                   cost=3 if o == 2 else 1)
-            def _(w): return w.gs(v, s).amplitude(o, sp, idx)
+            def _(w): return w.call(w.gs(v, s), "amplitude", o, sp, idx)
         _mk(o, sp, idx, tier)
 
     @tmpl(f"{tag}.overlap(2)", c, "")
-    def _(w): return w.gs(v, s).overlap(2)
+    def _(w): return w.call(w.gs(v, s), "overlap", 2)
 
     @tmpl(f"{tag}.norm_factor(2)", c, "", fresh="norm")
-    def _(w): return w.gs(v, s).norm_factor(2)
+    def _(w): return w.call(w.gs(v, s), "norm_factor", 2)
 
     for o in (0, 1, 2):
         def _mk(o):
             @tmpl(f"{tag}.expectation_value({o},1)", c, "", cost=2 if o == 2 else 1)
-            def _(w): return w.gs(v, s).expectation_value(o, 1)
+            def _(w): return w.call(w.gs(v, s), "expectation_value", o, 1)
         _mk(o)
+    # argument-permuted twin of expectation_value(2,1)
+
+    @tmpl(f"{tag}.expectation_value(1,2)", c, "")
+    def _(w): return w.call(w.gs(v, s), "expectation_value", 1, 2)
 
 
 _gs_templates("mp", False)
@@ -134,29 +138,29 @@ def _isr_templates(v, kind, space, idx, idx2, orders=(0, 1, 2), tier="q"):
             def _mk(o, bk):
                 @tmpl(f"{tag}.precursor({o},{space},{bk},{idx})", c, idx, tier=tier,
                       fp=False)
-                def _(w): return w.isr(v, kind).precursor(o, space, bk, idx)
+                def _(w): return w.call(w.isr(v, kind), "precursor", o, space, bk, idx)
             _mk(o, bk)
 
         def _mk(o):
             @tmpl(f"{tag}.overlap_precursor({o},{block},{bidx})", c, idx + idx2,
                   tier=tier, cost=2 if o == 2 else 1)
-            def _(w): return w.isr(v, kind).overlap_precursor(o, block, bidx)
+            def _(w): return w.call(w.isr(v, kind), "overlap_precursor", o, block, bidx)
 
             @tmpl(f"{tag}.s_root({o},{block},{bidx})", c, idx + idx2, tier=tier,
                   cost=2 if o == 2 else 1)
-            def _(w): return w.isr(v, kind).s_root(o, block, bidx)
+            def _(w): return w.call(w.isr(v, kind), "s_root", o, block, bidx)
 
             @tmpl(f"{tag}.intermediate_state({o},{space},ket,{idx})", c, idx,
                   tier=tier, cost=3 if o == 2 else 1, fp=False)
-            def _(w): return w.isr(v, kind).intermediate_state(o, space, "ket", idx)
+            def _(w): return w.call(w.isr(v, kind), "intermediate_state", o, space, "ket", idx)
 
             @tmpl(f"{tag}.overlap_isr({o},{block},{bidx})", c, idx + idx2,
                   tier="t" if o == 2 else tier, cost=4 if o == 2 else 1)
-            def _(w): return w.isr(v, kind).overlap_isr(o, block, bidx)
+            def _(w): return w.call(w.isr(v, kind), "overlap_isr", o, block, bidx)
         _mk(o)
 
     @tmpl(f"{tag}.amplitude_vector({idx},right)", c, idx)
-    def _(w): return w.isr(v, kind).amplitude_vector(idx, "right")
+    def _(w): return w.call(w.isr(v, kind), "amplitude_vector", idx, "right")
 
 
 _isr_templates("mp", "pp", "ph", "ia", "jb")
@@ -176,22 +180,22 @@ def _m_templates(v, kind, space, idx, idx2, orders=(0, 1, 2)):
         def _mk(o):
             @tmpl(f"{tag}.precursor_matrix_block({o},{block},{bidx})", c, idx + idx2,
                   cost=6 if o == 2 else 1, tier="t" if o == 2 else "q")
-            def _(w): return w.m(v, kind).precursor_matrix_block(o, block, bidx)
+            def _(w): return w.call(w.m(v, kind), "precursor_matrix_block", o, block, bidx)
 
             @tmpl(f"{tag}.isr_matrix_block({o},{block},{bidx})", c, idx + idx2,
                   cost=8 if o == 2 else 1, tier="q" if (o < 2 or kind != "pp") else "q")
-            def _(w): return w.m(v, kind).isr_matrix_block(o, block, bidx)
+            def _(w): return w.call(w.m(v, kind), "isr_matrix_block", o, block, bidx)
 
             @tmpl(f"{tag}.mvp_block_order({o},{space},{block},{idx})", c, idx,
                   cost=8 if o == 2 else 1, tier="t" if o == 2 else "q")
-            def _(w): return w.m(v, kind).mvp_block_order(o, space, block, idx)
+            def _(w): return w.call(w.m(v, kind), "mvp_block_order", o, space, block, idx)
         _mk(o)
 
     @tmpl(f"{tag}.mvp(1,{space},{idx})", c, idx, cost=2)
-    def _(w): return w.m(v, kind).mvp(1, space, idx)
+    def _(w): return w.call(w.m(v, kind), "mvp", 1, space, idx)
 
     @tmpl(f"{tag}.expectation_value(1)", c, "", cost=2)
-    def _(w): return w.m(v, kind).expectation_value(1)
+    def _(w): return w.call(w.m(v, kind), "expectation_value", 1)
 
 
 _m_templates("mp", "pp", "ph", "ia", "jb")
@@ -199,12 +203,12 @@ _m_templates("mp", "ip", "h", "i", "j")
 
 
 @tmpl("m.mp.pp.isr_matrix_block(1,ph,pphh,ia,jkbc)", "mp.pp", "iajkbc", cost=3, tier="t")
-def _(w): return w.m("mp", "pp").isr_matrix_block(1, "ph,pphh", "ia,jkbc")
+def _(w): return w.call(w.m("mp", "pp"), "isr_matrix_block", 1, "ph,pphh", "ia,jkbc")
 
 
 @tmpl("m.mp.pp.isr_matrix_block(0,pphh,pphh,ijab,klcd)", "mp.pp", "ijabklcd", cost=3,
       tier="t")
-def _(w): return w.m("mp", "pp").isr_matrix_block(0, "pphh,pphh", "ijab,klcd")
+def _(w): return w.call(w.m("mp", "pp"), "isr_matrix_block", 0, "pphh,pphh", "ijab,klcd")
 
 
 # ----------------------------------------------------------------------------- properties
@@ -212,11 +216,11 @@ for _o in (0, 1, 2):
     def _mk(o):
         @tmpl(f"prop.mp.pp.expectation_value({o},1)", "mp.pp", "", cost=6 if o == 2 else 2,
               tier="t" if o == 2 else "q")
-        def _(w): return w.prop("mp", "pp").expectation_value(adc_order=o, n_particles=1)
+        def _(w): return w.call(w.prop("mp", "pp"), "expectation_value", adc_order=o, n_particles=1)
 
         @tmpl(f"prop.mp.pp.trans_moment({o})", "mp.pp", "", cost=4 if o == 2 else 1,
               tier="t" if o == 2 else "q")
-        def _(w): return w.prop("mp", "pp").trans_moment(adc_order=o, n_create=1,
+        def _(w): return w.call(w.prop("mp", "pp"), "trans_moment", adc_order=o, n_create=1,
                                                         n_annihilate=1)
     _mk(_o)
 
@@ -402,6 +406,21 @@ def _(w):
     return sorted((str(k), v) for k, v in e.terms[0].symmetry().items())
 
 
+@tmpl("expr.term_symmetry(sym3,only_contracted)", "expr", None)
+def _(w):
+    e = imp(w, "sym3", targets="ia")
+    return sorted((str(k), v) for k, v in w.call(e.terms[0], "symmetry", True, False).items())
+
+
+@tmpl("expr.term_symmetry(sym3,only_target)", "expr", None)
+def _(w):
+    e = imp(w, "sym3", targets="ia")
+    t = e.terms[0]
+    a = sorted((str(k), v) for k, v in w.call(t, "symmetry", False, True).items())
+    b = sorted((str(k), v) for k, v in w.call(t, "symmetry", True, False).items())
+    return [a, b]
+
+
 @tmpl("expr.symbolic_denominators(mp2)", "expr", "")
 def _(w):
     return imp(w, "mp2", targets="").use_symbolic_denominators()
@@ -501,35 +520,35 @@ def bad(id, client):
 
 
 @bad("bad.gs.amplitude(2,ph,ij)", "mp")
-def _(w): return w.gs("mp", False).amplitude(2, "ph", "ij")
+def _(w): return w.call(w.gs("mp", False), "amplitude", 2, "ph", "ij")
 
 
 @bad("bad.gs.amplitude(1,pphh,k4l4c4)", "mp")
-def _(w): return w.gs("mp", False).amplitude(1, "pphh", "k4l4c4")
+def _(w): return w.call(w.gs("mp", False), "amplitude", 1, "pphh", "k4l4c4")
 
 
 @bad("bad.gs.energy(-1)", "mp")
-def _(w): return w.gs("mp", False).energy(-1)
+def _(w): return w.call(w.gs("mp", False), "energy", -1)
 
 
 @bad("bad.gs.psi(1,middle)", "mp")
-def _(w): return w.gs("mp", False).psi(1, "middle")
+def _(w): return w.call(w.gs("mp", False), "psi", 1, "middle")
 
 
 @bad("bad.isr.precursor(1,ph,ket,pq)", "mp.pp")
-def _(w): return w.isr("mp", "pp").precursor(1, "ph", "ket", "pq")
+def _(w): return w.call(w.isr("mp", "pp"), "precursor", 1, "ph", "ket", "pq")
 
 
 @bad("bad.isr.precursor(1,p,ket,a)", "mp.pp")
-def _(w): return w.isr("mp", "pp").precursor(1, "p", "ket", "a")
+def _(w): return w.call(w.isr("mp", "pp"), "precursor", 1, "p", "ket", "a")
 
 
 @bad("bad.isr.overlap_precursor(1,ph,ph,ia,ia)", "mp.pp")
-def _(w): return w.isr("mp", "pp").overlap_precursor(1, "ph,ph", "ia,ia")
+def _(w): return w.call(w.isr("mp", "pp"), "overlap_precursor", 1, "ph,ph", "ia,ia")
 
 
 @bad("bad.m.isr_matrix_block(1,ph,ia)", "mp.pp")
-def _(w): return w.m("mp", "pp").isr_matrix_block(1, "ph", "ia")
+def _(w): return w.call(w.m("mp", "pp"), "isr_matrix_block", 1, "ph", "ia")
 
 
 @bad("bad.itmd.t2_1.expand_itmd(ija)", "itmd")
